@@ -130,9 +130,15 @@ def inline_image(t: Term, record: bool = True):
                 else:
                     break
             return z[0] == "attr" and z[2] == "positions"
+        def grid_atom(z):
+            # a point of an explicitly allocated grid (gaussian blurring: grid point - particle positions)
+            while z[0] == "sub":
+                z = z[1]
+            return z[0] == "call" and z[1] in ("numpy.zeros", "numpy.empty")
         diffs = []
         for x in walk(t):
-            if x[0] == "bin" and x[1] == "-" and pos_atom(x[2]) and pos_atom(x[3]) and x not in diffs:
+            if x[0] == "bin" and x[1] == "-" and x not in diffs and \
+                    ((pos_atom(x[2]) and pos_atom(x[3])) or (grid_atom(x[2]) and pos_atom(x[3])) or (pos_atom(x[2]) and grid_atom(x[3]))):
                 diffs.append(x)
         if len(diffs) > 1:
             diffs = []          # several distinct displacement terms: roles ambiguous
@@ -144,6 +150,10 @@ def inline_image(t: Term, record: bool = True):
         for x in walk(t):
             if (x == ("sym", "ppp") or (x[0] == "attr" and x[2] == "ppp")) and x not in Ms_:
                 Ms_.append(x)
+        # a mask cut to the dimension (ppp[:ndim], ppp[:len(ngrids)]) is the mask
+        sliced = [x for x in walk(t) if x[0] == "sub" and x[1] in Ms_ and x[2][0] == "slice"]
+        if len(Ms_) == 1 and sliced and len(set(sliced)) == 1:
+            Ms_ = [sliced[0]]
         uses_round = any(x[0] == "call" and x[1] in c02.NEAREST + tuple(c02.DIRECTED) for x in walk(t)) if hasattr(c02, "DIRECTED") else False
         Ls_ = []
         for x in walk(t):
@@ -179,7 +189,7 @@ def inline_image(t: Term, record: bool = True):
             if alg is True and typed is not False:
                 res = ("ok", (R, H, M if Ms_ else None))
             else:
-                wit = c02.numeric_witness(t, R, H, M)
+                wit = c02.numeric_witness(t, R, H, M, lengths=Ls_[0] if len(Ls_) == 1 else None)
                 if wit:
                     res = ("bad", (clash + " ; " if clash else "") + wit)
                 elif clash:
@@ -212,6 +222,11 @@ def image_grammar(x: Term) -> bool:
     if k == "attr":
         return x[2] in ("positions", "hmatrix", "boxlength", "boxbounds", "T", "ppp", "shape", "nparticle", "ndim", "snapshots") and image_grammar(x[1])
     if k in ("sub", "elem"):
+        z = x
+        while z[0] in ("sub", "elem"):
+            z = z[1]
+        if z[0] == "call" and z[1] in ("numpy.zeros", "numpy.empty"):
+            return True                 # a point of an explicitly allocated array (grid of the Gaussian blurring): an opaque coordinate
         return image_grammar(x[1])      # the index may be anything (neighbour tables, loop counters)
     if k == "bin":
         return x[1] in ("+", "-", "*", "/", "@", "%", "//") and image_grammar(x[2]) and image_grammar(x[3])
